@@ -138,41 +138,27 @@ def rule_z3(repo, col):
         raise AnalysisError("get_evaluator: loop target (name, index, value) expected")
     _, ix, val = [e.id for e in l.target.elts]
     paths = dtable.extract_block(l.body)
-    rows = {("TRUE", "+"): None, ("FALSE", "-"): None, ("TRUE", "-"): None, ("FALSE", "+"): None}
-    others_add = 0
-    bad = []
-    for p in paths:
-        conds = dict((s, t) for s, t, _ in p.conds)
-        is_true = conds.get("%s == 0" % ix)
-        is_false = conds.get("%s is None" % ix)
-        pos = conds.get("%s > 0" % val)
-        neg = conds.get("%s < 0" % val)
-        adds = [a for fn, a, _ in p.calls if fn == "evaluator.add_evidence"]
-        row = None
-        if is_true and pos:
-            row = ("TRUE", "+")
-        elif is_false and neg and not (is_true and pos):
-            row = ("FALSE", "-")
-        elif is_true and neg:
-            row = ("TRUE", "-")
-        elif is_false and pos:
-            row = ("FALSE", "+")
-        if row is not None:
-            rows[row] = ("raise:" + (p.value or "")) if p.end == "raise" else ("add" if adds else "skip")
-        elif adds:
-            others_add += 1
+    # the table is evaluated over the finite domain: evidence node in {TRUE key 0, FALSE key None} x observed value in {+1, -1}
     want = {("TRUE", "+"): "skip", ("FALSE", "-"): "skip", ("TRUE", "-"): "raise", ("FALSE", "+"): "raise"}
-    for row, exp in want.items():
-        got = rows[row]
-        if got is None:
-            raise AnalysisError("get_evaluator: row %s of the deterministic-evidence table not found" % (row,))
-        ok = got == exp if exp == "skip" else (got.startswith("raise:") and "InconsistentEvidenceError" in got)
-        col.decide("Z3", m, l, ok, "evidence node %s observed %s -> %s" % (row[0], "true" if row[1] == "+" else "false", exp),
-                   "deterministic evidence: node is the %s key and is observed %s: expected %s, found %s" % (row[0], "true" if row[1] == "+" else "false",
-                                                                                                          "InconsistentEvidenceError" if exp == "raise" else "no action", got),
-                   construct="get_evaluator evidence table row %s/%s" % row, function="Evaluatable.get_evaluator")
-    col.decide("Z3", m, l, others_add >= 2, "non-deterministic evidence reaches add_evidence", "no path adds the remaining evidence to the evaluator",
-               construct="get_evaluator: add_evidence rows", function="Evaluatable.get_evaluator")
+    for (node_kind, sign), exp in want.items():
+        mapping = [(ix, 0 if node_kind == "TRUE" else None), (val, 1 if sign == "+" else -1)]
+        ps = dtable.compatible(paths, mapping)
+        # only the paths decided by the scenario up to their first undecidable condition count; a path that needs an undecided atom before acting is kept
+        outcomes = set()
+        for p in ps:
+            adds = [a for fn, a, _ in p.calls if fn == "evaluator.add_evidence"]
+            outcomes.add(("raise:" + (p.value or "")) if p.end == "raise" else ("add" if adds else "skip"))
+        if not outcomes:
+            raise AnalysisError("get_evaluator: no path for the evidence case %s" % ((node_kind, sign),))
+        if exp == "skip":
+            ok = outcomes == {"skip"}
+        else:
+            ok = all(o.startswith("raise:") and "InconsistentEvidenceError" in o for o in outcomes)
+        col.decide("Z3", m, l, ok, "deterministic evidence %s observed %s -> %s" % (node_kind, "true" if sign == "+" else "false", exp),
+                   "get_evaluator: an evidence atom that grounds to %s and is observed %s must %s; the loop body does %s in that case (evaluated with %s = %r, %s = %s)"
+                   % (node_kind, "true" if sign == "+" else "false", "be skipped" if exp == "skip" else "raise InconsistentEvidenceError (its probability is zero)", sorted(outcomes),
+                      ix, mapping[0][1], val, mapping[1][1]),
+                   construct="get_evaluator: deterministic evidence %s/%s" % (node_kind, sign), function="Evaluatable.get_evaluator")
     # signs: add_evidence(ev_value * ev_index) ; with an evidence dict: +index for true, -index for false
     srcs = []
     ok = True
